@@ -885,6 +885,7 @@ func TestC34(t *testing.T) {
 			rep["stack"] = res.hung.Stack
 			if parkedState(res.hung.State) {
 				sig["kind"] = "hang"
+				hangsSeen.Add(1)
 				r.Violation(sig, fmt.Sprintf("%s: server call still parked (%s) %.1fs after start, connection deadline %s", id, res.hung.State, res.hung.Took.Seconds(), c34ServerDeadline), rep)
 				return "hang"
 			}
@@ -903,6 +904,9 @@ func TestC34(t *testing.T) {
 	{
 		n := mon.Pick(24000, 800000)
 		parallelW(n, func(w, k int) {
+			if hangsSeen.Load() >= 5 {
+				return // every hang costs the full bound: a handful of witnesses is enough
+			}
 			rg := Sub("C34A", k)
 			p := pts[rg.Intn(len(pts))]
 			sv := servers[rg.Intn(len(servers))]
@@ -1070,6 +1074,9 @@ func TestC34(t *testing.T) {
 			}
 		}
 		parallelW(len(sel), func(w, i int) {
+			if hangsSeen.Load() >= 5 {
+				return // every hang costs the full bound: a handful of witnesses is enough
+			}
 			p := sel[i]
 			p.cs.id = fmt.Sprintf("real|%s|%s|ech=%v|msg%d(type %d)|%s|%d", p.sl.sv.name, p.sl.p.tg.Name, p.sl.ech, p.cs.msgIndex, p.mt, p.cs.mutName, p.cs.seed)
 			mon.JournalSlot(fmt.Sprintf("w%02d", w), p.cs.id)
@@ -1095,6 +1102,9 @@ func TestC34(t *testing.T) {
 	{
 		n := mon.Pick(8000, 200000)
 		parallelW(n, func(w, k int) {
+			if hangsSeen.Load() >= 5 {
+				return // every hang costs the full bound: a handful of witnesses is enough
+			}
 			rg := Sub("C34raw", k)
 			sv := servers[rg.Intn(len(servers))]
 			name, stream := rawStream(rg)
